@@ -8,6 +8,7 @@ mod fam_altform;
 mod fam_builtin;
 mod fam_frame;
 mod fam_golden;
+mod fam_leaves;
 mod fam_graph;
 mod fam_sink;
 mod fam_srcops;
@@ -120,6 +121,7 @@ fn main() {
         "threads-child" => fam_threads::run_child(&a),
         "frame" => fam_frame::run(&a),
         "golden" => fam_golden::run(&a),
+        "leaves" => fam_leaves::run(&a),
         "srcops" => fam_srcops::run(&a),
         "limits" => fam_srcops::run_limits(&a),
         "altform" => fam_altform::run(&a),
